@@ -123,17 +123,26 @@ def get_next_linebox(context, linebox, position_y, bottom_space, skip_stack,
 
         # Floats next to any part of the line box shorten it
         linebox.height = line.height
-        new_position_x, _, new_available_width = avoid_collisions(
-            context, linebox, containing_block, outer=False)
+        new_position_x, new_position_y, new_available_width = (
+            avoid_collisions(context, linebox, containing_block, outer=False))
         offset_x = text_align(
             context, line, new_available_width,
             last=(resume_at is None or preserved_line_break))
         if containing_block.style['direction'] == 'rtl':
             offset_x *= -1
             offset_x -= line.width
-            # The line ends at the left of the right floats met in the line
-            offset_x -= float_widths['right']
-            offset_x -= line.position_x - original_position_x
+            if new_position_y == position_y:
+                # The line ends at the right bound left by the floats
+                offset_x += new_position_x - line.position_x
+            else:
+                # The line does not fit beside the floats, it ends at the left
+                # of the right floats met in the line
+                offset_x -= float_widths['right']
+                offset_x -= line.position_x - original_position_x
+        elif new_position_y == position_y:
+            # A float met in the line and placed below the line has pushed
+            # the children of the line: the line starts at the left bound
+            offset_x += min(0, new_position_x - line.position_x)
 
         # Floats have already been placed horizontally, move the text only
         line.translate(offset_x, 0, ignore_floats=True)
